@@ -73,6 +73,74 @@ def gatedCellIs (c c' : Circuit) (nodes : Array CNode) (bind : Nat → Option Bi
 /-- abstract cell: enable > 0 takes the data, enable = 0 holds, enable < 0 closes both gates -/
 def gatedNext (w d m : I32) : I32 := if w.toInt > 0 then d else if w = 0 then m else 0
 
+/-- operand `o` of entity `e` reads, on `s`, exactly the output of `prev` -/
+def ringOperand (c : Circuit) (e : Nat) (s : Sig) (prev : Nat) (o : Operand) : Bool :=
+  match o with
+  | .ref (.sig t) sel => t == s && c.isolated e sel s prev
+  | _ => false
+
+/-! ## set/reset latches (C05), set priority, value 1 -/
+
+def CmpOp.negate : CmpOp → CmpOp
+  | .lt => .ge | .ge => .lt | .le => .gt | .gt => .le | .eq => .ne | .ne => .eq
+
+/-- `a` carried over to another signal by `× 1` (the set remapper) -/
+def mulOne (a : Arg) : VExpr := .alu .mul (.arg a) (.arg (.int 1))
+
+/-- the feedback row: the latch's own output on `ty` is positive -/
+def fbRow (c' : Circuit) (e : Nat) (ty : Sig) (cd : Cond) : Bool :=
+  cd.op == .gt && isConst0 cd.second &&
+  (match cd.first with
+   | .ref (.sig t) sel => t == ty && c'.readsSum e sel ty [e]
+   | _ => false)
+
+/-- row `cd` of `e` holds exactly when the 0/1 value `a` is 1 (`pos`) / is 0: the flag read directly, through `+ 0`
+or through `× 1`, compared with 0 -/
+def flagRow (c' : Circuit) (nodes : Array CNode) (bind : Nat → Option Bind) (e : Nat) (cd : Cond) (a : Arg) (pos : Bool) : Bool :=
+  isBoolArg nodes a && !cd.usesEach && isConst0 cd.second && cd.op == (if pos then .gt else .eq) &&
+  (operandIsArg c' nodes bind e cd.first a ||
+    opIs c' nodes bind (entIs c' nodes bind (mulOne a)) (mulOne a) e cd.first)
+
+/-- row `cd` of `e` is the comparison `a` itself (`pos`) or its negation, inlined -/
+def cmpRow (c' : Circuit) (nodes : Array CNode) (bind : Nat → Option Bind) (e : Nat) (cd : Cond) (a : Arg) (pos : Bool) : Bool :=
+  match a with
+  | .node m =>
+    (match nodes[m]? with
+     | some (.cmp op x y _) =>
+       argBelow m x && argBelow m y && cd.op == (if pos then op else op.negate) && cd.first.isPlain && !cd.usesEach &&
+         matchOperand c' nodes bind e cd.first x && matchOperand c' nodes bind e cd.second y
+     | _ => false)
+  | .int _ => false
+
+def rowIs (c' : Circuit) (nodes : Array CNode) (bind : Nat → Option Bind) (e : Nat) (cd : Cond) (a : Arg) (pos : Bool) : Bool :=
+  flagRow c' nodes bind e cd a pos || cmpRow c' nodes bind e cd a pos
+
+/-- decider `e` of the uncut circuit is the latch written with `write(1, set=s, reset=r)` (set first): rows
+`(feedback AND NOT r) OR s`, or with the comparisons inlined `s OR (feedback AND NOT r)` -/
+def latchIs (c c' : Circuit) (nodes : Array CNode) (bind : Nat → Option Bind) (e : Nat) (ty : Sig) (s r : Arg) : Bool :=
+  argBelow nodes.size s && argBelow nodes.size r &&
+  match c.kind e with
+  | .decider cfg =>
+    (match cfg.outs with | [o] => isConstOneOut o ty | _ => false) &&
+    (match cfg.conds with
+     | [c1, c2, c3] =>
+       (fbRow c' e ty c1 && !c1.usesEach && c2.isAnd && rowIs c' nodes bind e c2 r false && !c3.isAnd && rowIs c' nodes bind e c3 s true) ||
+       (rowIs c' nodes bind e c1 s true && !c2.isAnd && fbRow c' e ty c2 && !c2.usesEach && c3.isAnd && rowIs c' nodes bind e c3 r false)
+     | _ => false)
+  | _ => false
+
+/-- arithmetic combinator `m` multiplies the latch state shown by `e` with the constant `k` (the latch value) -/
+def multIs (c : Circuit) (e m : Nat) (ty : Sig) (k : I32) : Bool :=
+  match c.kind m with
+  | .arith cfg =>
+    cfg.op == .mul && !cfg.first.isEach && !cfg.second.isEach && outIs cfg.out ty &&
+      ringOperand c m ty e cfg.first && (match cfg.second with | .const k' => k' == k | _ => false)
+  | _ => false
+
+/-- abstract latch with the declared priority on boolean set / reset -/
+def latchNextB (setPrio : Bool) (on s r : Bool) : Bool :=
+  if s && r then setPrio else if s then true else if r then false else on
+
 /-! ## `m.write(f(m.read()))` folded into arithmetic feedback: one combinator that reads its own output -/
 
 /-- the arithmetic combinator `e` of the uncut circuit computes `x op y` on `s` from operands matched in the cut
@@ -117,12 +185,6 @@ structure RStage where
   deriving Repr, Inhabited
 
 def RStage.fn (st : RStage) (k x : I32) : I32 := if st.ringFirst then alu st.op x k else alu st.op k x
-
-/-- operand `o` of entity `e` reads, on `s`, exactly the output of `prev` -/
-def ringOperand (c : Circuit) (e : Nat) (s : Sig) (prev : Nat) (o : Operand) : Bool :=
-  match o with
-  | .ref (.sig t) sel => t == s && c.isolated e sel s prev
-  | _ => false
 
 def Side.arg : Side → Arg
   | .int k => .int k
@@ -266,6 +328,49 @@ def discoverRing (c : Circuit) (nodes : Array CNode) (s : Sig) (m : Nat) (d : Ar
       | some stages => if ringCellIs c nodes s m r stages d then some (r, stages) else none
       | none => none)
   | none => none
+
+/-- deciders on `ty` with three rows and a constant-1 output that read their own output -/
+def latchCands (c : Circuit) (ty : Sig) : List Nat :=
+  (List.range c.n).filter (fun i =>
+    match c.kind i with
+    | .decider cfg =>
+      cfg.conds.length == 3 && (match cfg.outs with | [o] => isConstOneOut o ty | _ => false) &&
+        (c.selProducers i RG).contains i
+    | _ => false)
+
+/-- the multiplier behind latch `e`: `ty × k → ty`, reading only `e` -/
+def multCands (c : Circuit) (e : Nat) (ty : Sig) (k : I32) : List Nat :=
+  (List.range c.n).filter (fun m => multIs c e m ty k)
+
+/-- bindings one row of a latch suggests for the set / reset value `a` -/
+def proposeRow (c : Circuit) (nodes : Array CNode) (e : Nat) (cd : Cond) (a : Arg) : Props :=
+  let inlined : Props :=
+    match a with
+    | .node m =>
+      (match (nodes[m]? : Option CNode) with
+       | some (.cmp op x y _) =>
+         if cd.op == op || cd.op == op.negate then
+           ((proposeArg c nodes e cd.first x).getD []) ++ ((proposeArg c nodes e cd.second y).getD [])
+         else []
+       | _ => [])
+    | _ => []
+  let flag : Props :=
+    ((proposeArg c nodes e cd.first a).getD []) ++
+    ((proposeOp c nodes (proposeLeaves c nodes (mulOne a)) (mulOne a) e cd.first).getD []) ++
+    ((proposeOp c nodes (proposeLeaves c nodes (projOf a)) (projOf a) e cd.first).getD [])
+  -- a flag compared with 0 has a constant 0 on the right; an inlined comparison usually does not read a 0/1 flag
+  if isConst0 cd.second && !flag.isEmpty then flag ++ inlined else inlined ++ flag
+
+def proposeLatch (c : Circuit) (nodes : Array CNode) (e : Nat) (ty : Sig) (s r : Arg) : Props :=
+  match c.kind e with
+  | .decider cfg =>
+    (match cfg.conds with
+     | [c1, c2, c3] =>
+       let fbFirst := (match c1.first with | .ref (.sig t) _ => t == ty | _ => false) && c2.isAnd
+       if fbFirst then proposeRow c nodes e c2 r ++ proposeRow c nodes e c3 s
+       else proposeRow c nodes e c1 s ++ proposeRow c nodes e c3 r
+     | _ => [])
+  | _ => []
 
 /-- bindings the gates of a cell suggest for its data and enable values -/
 def proposeGated (c : Circuit) (nodes : Array CNode) (ew : Nat) (ty : Sig) (d en : Arg) : Props :=
